@@ -98,7 +98,7 @@ def modelOutcome (p : Point) : Nat :=
 
 /-- `ref` (a trusted-list entry) accepts the encoded host name `hn` -/
 def RefMatches (idna : Idna) (hn : List Char) (ref : List Char) : Prop :=
-  ∃ rn, idna (beforeColon (refParts ref).2) = .ok rn ∧
+  ∃ rn, idna (stripPort (refParts ref).2) = .ok rn ∧
     (rn = hn ∨ ((refParts ref).1 = true ∧ ('.' :: rn) <:+ hn))
 
 theorem endsWith_iff (s suffix : List Char) : endsWith s suffix = true ↔ suffix <:+ s := by
@@ -112,7 +112,7 @@ theorem matchRefs_sound (idna : Idna) (hn : List Char) : ∀ (trusted : List (Li
   | cons ref rest ih =>
     intro h
     unfold matchRefs at h
-    cases hr : idna (beforeColon (refParts ref).2) with
+    cases hr : idna (stripPort (refParts ref).2) with
     | error e => simp [hr] at h
     | ok rn =>
       simp only [hr] at h
@@ -125,7 +125,7 @@ theorem matchRefs_sound (idna : Idna) (hn : List Char) : ∀ (trusted : List (Li
         exact ⟨r, List.mem_cons_of_mem _ hr1, hr2⟩
 
 theorem matchRefs_complete (idna : Idna) (hn : List Char) : ∀ (trusted : List (List Char)),
-    (∀ ref ∈ trusted, ∃ rn, idna (beforeColon (refParts ref).2) = .ok rn) →
+    (∀ ref ∈ trusted, ∃ rn, idna (stripPort (refParts ref).2) = .ok rn) →
     (∃ ref ∈ trusted, RefMatches idna hn ref) → matchRefs idna hn trusted = true := by
   intro trusted
   induction trusted with
@@ -149,6 +149,47 @@ theorem matchRefs_complete (idna : Idna) (hn : List Char) : ∀ (trusted : List 
         simp only [Bool.or_eq_true, beq_iff_eq, Bool.and_eq_true, endsWith_iff]
         exact h2
       · exact ⟨r, hr1, hr2⟩
+
+/-! ### _strip_port -/
+
+theorem takeWhile_ne_append (c : Char) : ∀ (body rest : List Char), c ∉ body →
+    (body ++ c :: rest).takeWhile (· != c) = body ∧ (body ++ c :: rest).dropWhile (· != c) = c :: rest := by
+  intro body
+  induction body with
+  | nil => intro rest _; simp
+  | cons x body ih =>
+    intro rest h
+    have hx : (x != c) = true := by
+      simp only [List.mem_cons, not_or] at h
+      simpa using fun e => h.1 e.symm
+    have := ih rest (fun hm => h (List.mem_cons_of_mem _ hm))
+    simp [hx, this.1, this.2]
+
+theorem takeWhile_ne_all (c : Char) : ∀ (body : List Char), c ∉ body →
+    body.dropWhile (· != c) = [] := by
+  intro body
+  induction body with
+  | nil => intro _; rfl
+  | cons x body ih =>
+    intro h
+    have hx : (x != c) = true := by
+      simp only [List.mem_cons, not_or] at h
+      simpa using fun e => h.1 e.symm
+    simp [hx, ih (fun hm => h (List.mem_cons_of_mem _ hm))]
+
+theorem ite_ok {c : Prop} [Decidable c] {α : Type} {s x : α} {e : String}
+    (h : (if c then (Except.ok s : Except String α) else .error e) = .ok x) : x = s := by
+  split at h
+  · cases h; rfl
+  · cases h
+
+theorem asciiIdna_ok {s x : List Char} (h : asciiIdna s = .ok x) : x = s := by
+  unfold asciiIdna at h
+  by_cases h1 : (s.all fun c => decide (c.toNat < 128)) = true
+  · simp only [h1, if_true] at h
+    exact ite_ok h
+  · simp only [h1, Bool.false_eq_true, if_false] at h
+    cases h
 
 /-! ### the PIN failure counter -/
 
@@ -227,5 +268,136 @@ theorem runIdeal_locked : ∀ (hist : List Attempt) (n : Nat), n > 10 →
     rcases hr with rfl | hr
     · exact hstep.1
     · exact this.1 r hr
+
+/-! ### sessions with PIN changes -/
+
+/-- the client's cookie was issued for the current or a former PIN -/
+def HeldLe (s : Session) : Prop := ∀ g, s.held = some g → g ≤ s.gen
+
+/-- the client's cookie (if any) was issued for a former PIN -/
+def HeldStale (s : Session) : Prop := ∀ g, s.held = some g → g < s.gen
+
+theorem actStep_heldLe (s : Session) (a : Act) (h : HeldLe s) : HeldLe (actStep s a).2 := by
+  cases a <;> simp only [actStep, HeldLe] at h ⊢
+  · intro g hg
+    split at hg
+    · simp only [Option.some.injEq] at hg; omega
+    · exact h g hg
+  · exact h
+  · exact h
+  · intro g hg; have := h g hg; omega
+  · intro g hg
+    split at hg
+    · simp only [Option.some.injEq] at hg; omega
+    · exact h g hg
+  · exact h
+
+theorem runSession_heldLe : ∀ (acts : List Act) (s : Session), HeldLe s → HeldLe (runSession s acts).2 := by
+  intro acts
+  induction acts with
+  | nil => intro s h; exact h
+  | cons a rest ih =>
+    intro s h
+    simp only [runSession]
+    exact ih _ (actStep_heldLe s a h)
+
+theorem heldTrust_stale {s : Session} (h : HeldStale s) : heldTrust s = .no ∨ heldTrust s = .bad := by
+  unfold heldTrust
+  cases hh : s.held with
+  | none => exact Or.inl rfl
+  | some g =>
+    have := h g hh
+    have hne : (g == s.gen) = false := by simp; omega
+    simp [hne]
+
+theorem pinAuth_no_wrong (f : UInt8) : (pinAuth f .no false).1.auth = false := by
+  unfold pinAuth pinAuthWith
+  simp only
+  split <;> rfl
+
+theorem pinAuth_bad (f : UInt8) (b : Bool) : (pinAuth f .bad b).1.auth = false := rfl
+
+/-- with a stale (or no) cookie and without entering the current PIN, a step neither evaluates nor
+authenticates, and the cookie stays stale -/
+theorem actStep_stale (s : Session) (a : Act) (ha : a ≠ .right) (h : HeldStale s) :
+    HeldStale (actStep s a).2 ∧ (actStep s a).1 ≠ .evalRan true ∧
+      ∀ r, (actStep s a).1 = .pin r → r.auth = false := by
+  cases a with
+  | right => exact absurd rfl ha
+  | wrong =>
+    refine ⟨h, by simp [actStep], ?_⟩
+    intro r hr
+    simp only [actStep, Obs.pin.injEq] at hr
+    rw [← hr]; exact pinAuth_no_wrong _
+  | stale =>
+    refine ⟨h, by simp [actStep], ?_⟩
+    intro r hr
+    simp only [actStep, Obs.pin.injEq] at hr
+    rw [← hr]; exact pinAuth_bad _ _
+  | change =>
+    refine ⟨?_, by simp [actStep], by simp [actStep]⟩
+    intro g hg
+    have := h g hg
+    simp only [actStep]; omega
+  | reuse =>
+    have hauth : (pinAuth s.failed (heldTrust s) false).1.auth = false := by
+      rcases heldTrust_stale h with e | e <;> rw [e]
+      · exact pinAuth_no_wrong _
+      · exact pinAuth_bad _ _
+    refine ⟨?_, by simp [actStep], ?_⟩
+    · intro g hg
+      simp only [actStep, hauth, Bool.false_eq_true, if_false] at hg
+      exact h g hg
+    · intro r hr
+      simp only [actStep, Obs.pin.injEq] at hr
+      rw [← hr]; exact hauth
+  | eval =>
+    refine ⟨h, ?_, by simp [actStep]⟩
+    rcases heldTrust_stale h with e | e <;> simp [actStep, e, Trust.isYes]
+
+theorem runSession_stale : ∀ (acts : List Act) (s : Session), (∀ a ∈ acts, a ≠ .right) → HeldStale s →
+    ∀ o ∈ (runSession s acts).1, o ≠ .evalRan true ∧ ∀ r, o = .pin r → r.auth = false := by
+  intro acts
+  induction acts with
+  | nil => intro s _ _ o ho; simp [runSession] at ho
+  | cons a rest ih =>
+    intro s hno h o ho
+    have hstep := actStep_stale s a (hno a List.mem_cons_self) h
+    simp only [runSession, List.mem_cons] at ho
+    rcases ho with rfl | ho
+    · exact ⟨hstep.2.1, hstep.2.2⟩
+    · exact ih _ (fun x hx => hno x (List.mem_cons_of_mem _ hx)) hstep.1 o ho
+
+def Attempt.toAct : Attempt → Act
+  | .right => .right
+  | .wrong => .wrong
+  | .stale => .stale
+
+theorem runSession_cons (s : Session) (a : Act) (rest : List Act) :
+    (runSession s (a :: rest)).1 = (actStep s a).1 :: (runSession (actStep s a).2 rest).1 ∧
+    (runSession s (a :: rest)).2 = (runSession (actStep s a).2 rest).2 := ⟨rfl, rfl⟩
+
+theorem runHistory_cons (fail : UInt8 → UInt8) (f : UInt8) (a : Attempt) (rest : List Attempt) :
+    (runHistory fail f (a :: rest)).1 = (attemptStep fail f a).1 :: (runHistory fail (attemptStep fail f a).2 rest).1 ∧
+    (runHistory fail f (a :: rest)).2 = (runHistory fail (attemptStep fail f a).2 rest).2 := ⟨rfl, rfl⟩
+
+/-- on cookie-less attempts the session machine is the attempt-history machine -/
+theorem runSession_history : ∀ (hist : List Attempt) (s : Session),
+    (runSession s (hist.map Attempt.toAct)).1 = (runHistory failPinAuth s.failed hist).1.map Obs.pin ∧
+    (runSession s (hist.map Attempt.toAct)).2.failed = (runHistory failPinAuth s.failed hist).2 := by
+  intro hist
+  induction hist with
+  | nil => intro s; exact ⟨rfl, rfl⟩
+  | cons a rest ih =>
+    intro s
+    have key : (actStep s a.toAct).1 = .pin (attemptStep failPinAuth s.failed a).1 ∧
+        (actStep s a.toAct).2.failed = (attemptStep failPinAuth s.failed a).2 := by
+      cases a <;> exact ⟨rfl, rfl⟩
+    have := ih (actStep s a.toAct).2
+    rw [key.2] at this
+    simp only [List.map_cons]
+    rw [(runSession_cons _ _ _).1, (runSession_cons _ _ _).2, (runHistory_cons _ _ _ _).1,
+      (runHistory_cons _ _ _ _).2, this.1, this.2, key.1]
+    exact ⟨rfl, rfl⟩
 
 end Wz.Dbg
